@@ -17,9 +17,15 @@ var hostMethods = map[string][]string{
 	"writer":   {"Write"},
 	"fprint":   {"Write"},
 	"sort":     {"Len", "Less", "Swap"},
+	// the converted value is used after the variable it was taken from has changed (F05-18, repaired by 32d4f06)
+	"stringer-bump":     {"String"}, // var s fmt.Stringer = SRC; every int of v += 10; fmt.Println(s)
+	"error-bump":        {"Error"},
+	"stringer-reassign": {"String"}, // var s fmt.Stringer = SRC; the converted variable is assigned another value; fmt.Println(s)
+	"assert-stringer":   {"String"}, // var x interface{} = SRC; every int of v += 10; s, ok := x.(fmt.Stringer); fmt.Println(ok, s)
 }
 
-var hostForms = []string{"host-stringer", "host-println", "host-error", "host-writer", "host-fprint", "host-sort"}
+var hostForms = []string{"host-stringer", "host-println", "host-error", "host-writer", "host-fprint", "host-sort",
+	"host-stringer-bump", "host-error-bump", "host-stringer-reassign", "host-assert-stringer"}
 
 // hostMethodSource renders one host method of struct type t.
 func hostMethodSource(ts []TypeDecl, ti int, m Method) string {
@@ -93,6 +99,20 @@ func hostStmt(ts []TypeDecl, s Stmt, imports map[string]bool) string {
 	case "sort":
 		imports["sort"] = true
 		return fmt.Sprintf("\tsort.Sort(%s)\n\tfmt.Println(data)\n", src)
+	case "stringer-bump":
+		return fmt.Sprintf("\tvar s fmt.Stringer = %s\n\tbump%s(&v)\n\tfmt.Println(s)\n\tfmt.Println(s)\n", src, ts[s.T].Name)
+	case "error-bump":
+		return fmt.Sprintf("\tvar e error = %s\n\tbump%s(&v)\n\tfmt.Println(e)\n", src, ts[s.T].Name)
+	case "stringer-reassign":
+		next := 50
+		lit := literal(ts, s.T, &next, 0)
+		re := "v = " + lit
+		if s.R.Kind == "ptrvar" {
+			re = "p = &" + lit
+		}
+		return fmt.Sprintf("\tvar s fmt.Stringer = %s\n\t%s\n\tfmt.Println(s)\n", src, re)
+	case "assert-stringer":
+		return fmt.Sprintf("\tvar x interface{} = %s\n\tbump%s(&v)\n\ts, ok := x.(fmt.Stringer)\n\tfmt.Println(ok)\n\tif ok {\n\t\tfmt.Println(s)\n\t}\n", src, ts[s.T].Name)
 	}
 	return ""
 }
@@ -162,7 +182,7 @@ func genHost(r *rand.Rand, ts0 []TypeDecl, t int, form string) Prog {
 			kind = "stringer"
 		}
 	}
-	p.Stmts = append(p.Stmts, Stmt{Op: "host", F: kind, R: src})
+	p.Stmts = append(p.Stmts, Stmt{Op: "host", F: kind, R: src, T: t})
 	p.Stmts = append(p.Stmts, Stmt{Op: "dump", Y: "v"})
 	return p
 }
@@ -271,12 +291,24 @@ func hostClass(p Prog) string {
 			return "host-missing-method"
 		}
 	}
-	// F05-18: the wrappers of all the methods are made when the value is converted to the host
-	// interface, and since 3081633 a wrapper binds (copies) a value receiver when it is made: a
-	// value-receiver method reached through a pointer does not see what the pointer-receiver methods
-	// of the same interface did meanwhile. Visible with sort.Interface (Swap prints its receiver).
-	if kind == "sort" && !recvPtr["Swap"] && (recvPtr["Len"] || recvPtr["Less"]) {
-		return "host-value-receiver-bound-at-conversion"
+	if kind == "assert-stringer" {
+		// `var x interface{} = SRC; …; x.(fmt.Stringer)`: is the value wrapped in a valueInterface when it
+		// is stored in interface{} (genDestValue: only when its type has a method attached to it)
+		wrapped := false
+		for _, m := range append(append([]Method{}, p.Types[t].Methods...), p.Types[t].Host...) {
+			if !ptr || m.Ptr {
+				wrapped = true
+			}
+		}
+		switch {
+		case !wrapped:
+			// F06 in its host form: an unwrapped value has no methods for the host-side check
+			return "host-assert-unwrapped"
+		case !ptr:
+			// F05-19: the wrapper is made over the source expression of the conversion: it shows the
+			// variable as it is at the assertion, not the copy the interface holds
+			return "host-assert-value-reevaluated"
+		}
 	}
 	return "in-domain"
 }
